@@ -125,9 +125,16 @@ def check(ctx, rep):
         inner = [n for n in own_nodes(withs[0]) if isinstance(n, ast.Call) and norm(n.func) == 'self._clear_all']
         kw = dict((k.arg, norm(k.value)) for k in inner[0].keywords) if inner else {}
         rep.ob('chain.clear-inside-context', '_clear_all runs inside the preserve context', len(inner) == 1, '', ctx.where(withs[0]))
-        rep.ob('chain.preserve-flags', 'functions iff ALL; OPTION BASE iff anything is kept; DEFtype iff MERGE',
-               kw == {'preserve_functions': 'preserve_all', 'preserve_base': 'common_scalars or common_arrays or preserve_all', 'preserve_deftype': 'merge'},
+        rep.ob('chain.preserve-flags', 'OPTION BASE iff anything is kept; DEFtype iff MERGE; functions never unconditionally',
+               dict((k, v) for k, v in kw.items() if k != 'preserve_functions') == {'preserve_base': 'common_scalars or common_arrays or preserve_all', 'preserve_deftype': 'merge'}
+               and kw.get('preserve_functions') in ('preserve_all', 'merge', 'False', 'preserve_all and merge', 'merge and preserve_all'),
                repr(kw), ctx.where(withs[0]))
+        # a DEF FN holds a position in the program text; when the program is replaced (no MERGE) a function that is kept points
+        # into the new program's bytes
+        rep.ob('chain.functions-do-not-outlive-their-program', 'chain_: DEF FN definitions are kept at most when the program text is kept (MERGE)',
+               kw.get('preserve_functions') in ('merge', 'False', 'preserve_all and merge', 'merge and preserve_all'),
+               'preserve_functions=%s: with CHAIN ...,ALL (no MERGE) a function of the old program stays defined and evaluates whatever bytes lie at its old offset in the new program' % kw.get('preserve_functions'),
+               ctx.where(withs[0]))
         loads = [norm(n.func) for n in own_nodes(withs[0]) if isinstance(n, ast.Call) and norm(n.func) in ('self.program.load', 'self.program.merge')]
         rep.ob('chain.load-inside-context', 'the new program is loaded inside the context', sorted(loads) == ['self.program.load', 'self.program.merge'], repr(loads), ctx.where(withs[0]))
         # the COMMON strings are stored again when the context exits; only after that may the temporaries
